@@ -3,7 +3,6 @@ package dpos
 import (
 	"bytes"
 	"encoding/hex"
-	"fmt"
 
 	"github.com/aergoio/aergo/v2/consensus/impl/dpos/slot"
 	"github.com/aergoio/aergo/v2/types"
@@ -30,6 +29,8 @@ var vfBPIDs = [5]string{
 	"16Uiu2HAmHNqoSvjy1LSi5cMFrgZy87n43okaH9MD9Q4wP1oEzf6S",
 	"16Uiu2HAmKJUfVbtUB1v3BMUivfcpN6smx5u6z2jqxjQYEwwuKH9Q",
 }
+
+var vfNames = [8]string{"p0", "p1", "p2", "p3", "p4", "p5", "p6", "p7"}
 
 func vfPubKey(i int) []byte {
 	b, err := hex.DecodeString(vfPubKeyHex[i])
@@ -134,8 +135,8 @@ func VF_C08_b() {
 	infos := make([]*plInfo, m)
 	for i := 0; i < m; i++ {
 		nos[i] = vf.U64("plibNo")
-		infos[i] = &plInfo{Plib: &blockInfo{BlockNo: nos[i], BlockHash: fmt.Sprintf("h%d", i)}, PlibBy: &blockInfo{BlockNo: nos[i]}}
-		ls.Prpsd[vfBPIDs[i%5]+fmt.Sprint(i/5)] = infos[i]
+		infos[i] = &plInfo{Plib: &blockInfo{BlockNo: nos[i], BlockHash: vfNames[i]}, PlibBy: &blockInfo{BlockNo: nos[i]}}
+		ls.Prpsd[vfNames[i]] = infos[i]
 	}
 	if withNil == 1 {
 		ls.Prpsd["nilentry"] = nil
@@ -201,4 +202,123 @@ func VF_C08_d() {
 	// no LIB at all: nothing is vetoed
 	s.libState.Lib = nil
 	vf.Assert(s.NeedReorganization(rootNo), "C08.d.reorg")
+}
+
+// ---- C08.c bounded linear histories -------------------------------------------------------------------------------
+
+// vfHistory drives the REAL Status.Update over a linear chain of h blocks produced by n producers.
+// Producers 0..faulty-1 lie: their header field Confirms is an arbitrary symbolic uint64. The others follow the block
+// factory (generateBlock): Confirms = block no - number of the producer's previous block. Who produces a block is a
+// choice (slots may be skipped, so any order is possible); since producer identities enter the code only through
+// equality (map keys), histories are enumerated up to renaming of the honest producers: an honest producer that has
+// not produced yet is always the lowest-numbered unused one.
+type vfHist struct {
+	n, faulty int
+	s         *Status
+	chain     []*types.Block
+	producer  []int    // producer of chain[i]
+	lastOwn   []uint64 // last block number per producer
+	usedHon   int      // honest producers that have produced so far
+}
+
+func vfNewHist(n, faulty int) *vfHist {
+	genesis := vfBlock(0, 0, nil, -1, 0)
+	return &vfHist{n: n, faulty: faulty, s: vfNewStatus(uint16(n), genesis), chain: []*types.Block{genesis},
+		producer: []int{-1}, lastOwn: make([]uint64, n)}
+}
+
+// next builds the next block (producer by choice) without applying it.
+func (hi *vfHist) next() *types.Block {
+	avail := hi.faulty + hi.usedHon
+	if avail < hi.n {
+		avail++ // one fresh honest producer
+	}
+	p := vf.Choice("producer", avail)
+	if p == hi.faulty+hi.usedHon {
+		hi.usedHon++
+	}
+	no := uint64(len(hi.chain))
+	var confirms uint64
+	if p < hi.faulty {
+		confirms = vf.U64("confirms")
+	} else {
+		confirms = no - hi.lastOwn[p]
+	}
+	blk := vfBlock(no, 0, hi.chain[no-1], p, confirms)
+	hi.chain = append(hi.chain, blk)
+	hi.producer = append(hi.producer, p)
+	hi.lastOwn[p] = no
+	return blk
+}
+
+// distinctFrom: number of distinct producers of chain[from..best].
+func (hi *vfHist) distinctFrom(from uint64) int {
+	seen := make([]bool, hi.n)
+	cnt := 0
+	for i := int(from); i < len(hi.chain); i++ {
+		if p := hi.producer[i]; p >= 0 && !seen[p] {
+			seen[p] = true
+			cnt++
+		}
+	}
+	return cnt
+}
+
+// liarFrom: a lying producer produced one of chain[from..best].
+func (hi *vfHist) liarFrom(from uint64) bool {
+	for i := int(from); i < len(hi.chain); i++ {
+		if p := hi.producer[i]; p >= 0 && p < hi.faulty {
+			return true
+		}
+	}
+	return false
+}
+
+const vfFindingQuorum = "F-C08-1-lib-quorum-lying-producer"
+
+// VF_C08_c: all producers honest (n <= 3 tolerates no fault: f < n/3).
+func VF_C08_c() {
+	vfLinearHistory(vf.Param("n", 3), vf.Param("h", 4), 0, "C08.c")
+}
+
+// VF_C08_c_byz: n = 4 producers, one of them (f = 1 < 4/3) puts arbitrary Confirms values into its headers.
+func VF_C08_c_byz() {
+	vfLinearHistory(vf.Param("n", 4), vf.Param("h", 4), vf.Param("faulty", 1), "C08.c.byz")
+}
+
+func vfLinearHistory(n, h, faulty int, reach string) {
+	// Map iteration order: the only order-sensitive range in Status.Update is calcLIB's collection of the proposals,
+	// and C08.b decides (all orders) that its result is the order statistic of the multiset of proposals. Exploring the
+	// k! orders again after every block would only multiply identical paths.
+	vf.NoMapPerm(true)
+	hi := vfNewHist(n, faulty)
+	s := hi.s
+	prevLib := uint64(0)
+	for k := 1; k <= h; k++ {
+		blk := hi.next()
+		s.Update(blk) // REAL: addConfirmInfo, update (getPreLIB, calcLIB), updateLIB, gc, setConfirmsRequired
+		lib := s.libState.Lib
+		vf.Reach(reach)
+		vf.Assert(lib != nil, "C08.c.onchain")
+		no := uint64(k)
+		vf.Assert(lib.BlockNo <= no, "C08.c.bounded")
+		vf.Assert(lib.BlockNo >= prevLib, "C08.c.monotone")
+		if lib.BlockNo <= no {
+			if lib.BlockNo == 0 && lib.BlockHash == "" {
+				// the initial status (newLibStatus): no LIB computed yet
+			} else {
+				vf.Assert(lib.BlockHash == hi.chain[lib.BlockNo].ID(), "C08.c.onchain")
+			}
+			if lib.BlockNo > 0 {
+				// blocks of more than two thirds of the producers build on the LIB
+				d := hi.distinctFrom(lib.BlockNo)
+				vf.AssertKnown(d >= int(s.libState.confirmsRequired), "C08.c.quorum", vfFindingQuorum, hi.liarFrom(lib.BlockNo))
+			}
+		}
+		vf.Assert(s.libNo() == lib.BlockNo, "C08.c.bounded")
+		vf.Assert(s.bestBlock == blk, "C08.c.bounded")
+		vf.Assert(s.libState.confirms.Len() <= s.libState.gcNumLimit(), "C08.c.gc")
+		prevLib = lib.BlockNo
+	}
+	vf.Observe("lib", prevLib)
 }
